@@ -20,6 +20,7 @@ package limits
 //@   trigger intsInBounds(n)
 //@
 //@ func ValidateIntegerBoundsIPLD
+//@   ensures [C09] total: true
 //@   requires node != nil
 //@   ensures [C10] sound: result == nil ==> intsInBounds(node)
 //@   decreases nodeSize(node)
